@@ -1,9 +1,11 @@
 SPECIFICATION Spec
 CONSTANT MaxWords = 6
 CONSTANT EnmOnlyInPopOn = FALSE
+CONSTANT LineKeepsLast = FALSE
 INVARIANT QueueAtMostOne
 INVARIANT EndsNotBeforeStarts
 INVARIANT StartsInOrder
 INVARIANT OnlyLastBatchOpen
 INVARIANT NoRollOrPaintTextErased
+INVARIANT LaterLineWordsAreExecuted
 CHECK_DEADLOCK FALSE
